@@ -1,6 +1,6 @@
 (* C10 — session tracking hides backend cookies and never mixes sessions.  Statements only. *)
-From Coq Require Import List Arith Bool ZArith.
-From IP Require Import Gen.SrcFacts_Sessions Sessions.Sessions Sessions.SessionsCheck Proofs.SessionsProofs.
+From Coq Require Import List Arith Bool ZArith Lia.
+From IP Require Import Gen.SrcFacts_Sessions Sessions.Sessions Sessions.SessionsCheck Proofs.SessionsProofs Proofs.SessionWindowProofs.
 Import ListNotations.
 
 (* the source does not keep a cache entry for "no session" (it would take one of the configured slots) *)
@@ -27,6 +27,31 @@ Theorem C10_session_cookie : forall K ce st i use sets,
   (use = 0 -> o_issued (snd (serve K ce st i use sets)) = Some (s_next st)).
 Proof. exact issued_iff. Qed.
 Print Assumptions C10_session_cookie.
+
+(* Completeness inside the window (for the code as it is today: no cache entry for "no session",
+   C10_empty_id_not_cached): for every cache limit K (0 = unbounded), every session u and every
+   history in which clients present only session cookies that were issued - as long as u has always
+   been among the K most recently used sessions since it first appeared, every request presenting u
+   is given exactly the Set-Cookie operations of all earlier requests of session u, in order (what a
+   cookie jar makes of those operations is evaluated by the independent jar of the harness). *)
+Theorem C10_window_complete : forall K u h, u <> 0 -> issued_only 1 h -> in_window K u [] false 1 h ->
+  Forall2 agrees (expect u 1 0 [] h) (run K false s0 0 h).
+Proof. intros K u h Hu. exact (window_complete K u Hu h). Qed.
+Print Assumptions C10_window_complete.
+
+(* the hypotheses are satisfiable: three sessions, limit 2, session 1 never leaves the window *)
+Example C10_window_hypotheses :
+  let h := [(0, true); (0, true); (1, true); (2, false); (1, false); (0, true); (1, false)] in
+  issued_only 1 h /\ in_window 2 1 [] false 1 h /\
+  (expect 1 1 0 [] h = [None; None; Some [0]; None; Some [0; 2]; None; Some [0; 2]]) /\
+  (map o_consulted (run 2 false s0 0 h) = [[]; []; [0]; [1]; [0; 2]; []; [0; 2]]).
+Proof. vm_compute. repeat split; try lia; auto. Qed.
+
+(* sharpness: once a session has fallen out of the window its cookies are gone (limit 1, two sessions) *)
+Example C10_outside_window_cookies_lost :
+  map o_consulted (run 1 false s0 0 [(0, true); (0, true); (1, false)]) = [[]; []; []] /\
+  ~ in_window 1 1 [] false 1 [(0, true); (0, true); (1, false)].
+Proof. split; [vm_compute; reflexivity|]. intros H. vm_compute in H. destruct H as (_ & H & _). destruct (H eq_refl) as [E|E]; [discriminate|destruct E]. Qed.
 
 (* non-vacuity: two sessions interleaved; session 1 sees only its own operations *)
 Example C10_example :
